@@ -53,6 +53,10 @@ def _selector(kind, a, b, c):
         return None
     if kind == 1:
         return Slice.Slice(a, b, c)
+    if kind == 3:
+        return Slice.Slice(None, None, -c)      # reverse order
+    if kind == 4:
+        return Slice.Slice(a, b, -c)
     return Slice.Sample(c)
 
 
@@ -61,6 +65,10 @@ def _expect_indices(kind, a, b, c, n):
         return list(range(n))
     if kind == 1:
         return list(range(n))[a:b:c]
+    if kind == 3:
+        return list(range(n))[::-c]
+    if kind == 4:
+        return list(range(n))[a:b:-c]
     # Sample(c): decided by C15; here only 'what populate_frame_array was given'
     return Slice.Sample(c).indices(n)
 
@@ -132,14 +140,14 @@ ORDERS = [[0], [0, 0, 0], [0, 1, 0, 1, 0], [1, 0, 0, 1, 0, 0], [0, 0, 0, 0]]
 def populate(order: int, empty_at: int, vr_each: bool, kind: int, a: int, b: int, c: int, m1: bool, m2: bool, hist: bool) -> bool:
     """
     pre: 0 <= order <= 4 and empty_at in (-1, 1)
-    pre: 0 <= kind <= 2 and -2 <= a <= 3 and b in (-2, 0, 2, 3, 5) and 1 <= c <= 3
-    pre: kind == 1 or (a == 0 and b == 0)
+    pre: 0 <= kind <= 4 and -2 <= a <= 3 and b in (-2, 0, 2, 3, 5) and 1 <= c <= 3
+    pre: kind in (1, 4) or (a == 0 and b == 0)
     pre: kind != 0 or c == 1
     pre: vr_each == (order == 2)
-    pre: PART < 0 or order * 6 + kind * 2 + (1 if hist else 0) == PART
+    pre: PART < 0 or order * 10 + kind * 2 + (1 if hist else 0) == PART
     post: _
     """
-    order, empty_at, kind = mark.pick(order, 0, 4), mark.pick_from(empty_at, (-1, 1)), mark.pick(kind, 0, 2)
+    order, empty_at, kind = mark.pick(order, 0, 4), mark.pick_from(empty_at, (-1, 1)), mark.pick(kind, 0, 4)
     a, b, c = mark.pick(a, -2, 3), mark.pick_from(b, (-2, 0, 2, 3, 5)), mark.pick(c, 1, 3)
     vr_each, m1, m2, hist = mark.pickb(vr_each), mark.pickb(m1), mark.pickb(m2), mark.pickb(hist)
     o = ORDERS[order]
@@ -152,13 +160,13 @@ def populate(order: int, empty_at: int, vr_each: bool, kind: int, a: int, b: int
 def populate_full(order: int, empty_at: int, vr_each: bool, kind: int, a: int, b: int, c: int, m1: bool, m2: bool, hist: bool) -> bool:
     """
     pre: 0 <= order <= 4 and -1 <= empty_at <= 2
-    pre: 0 <= kind <= 2 and -2 <= a <= 3 and -2 <= b <= 5 and 1 <= c <= 3
-    pre: kind == 1 or (a == 0 and b == 0)
+    pre: 0 <= kind <= 4 and -2 <= a <= 3 and -2 <= b <= 5 and 1 <= c <= 3
+    pre: kind in (1, 4) or (a == 0 and b == 0)
     pre: kind != 0 or c == 1
-    pre: PART < 0 or order * 12 + kind * 4 + (2 if hist else 0) + (1 if vr_each else 0) == PART
+    pre: PART < 0 or order * 20 + kind * 4 + (2 if hist else 0) + (1 if vr_each else 0) == PART
     post: _
     """
-    order, empty_at, kind = mark.pick(order, 0, 4), mark.pick(empty_at, -1, 2), mark.pick(kind, 0, 2)
+    order, empty_at, kind = mark.pick(order, 0, 4), mark.pick(empty_at, -1, 2), mark.pick(kind, 0, 4)
     a, b, c = mark.pick(a, -2, 3), mark.pick(b, -2, 5), mark.pick(c, 1, 3)
     vr_each, m1, m2, hist = mark.pickb(vr_each), mark.pickb(m1), mark.pickb(m2), mark.pickb(hist)
     o = ORDERS[order]
